@@ -15,7 +15,7 @@ ROUNDS = {
     "C12": [(2, 1), (5, 2), (8, 3), (11, 4), (14, 5), (17, 7)],
     "C14": [(2, 1), (5, 2), (8, 3), (11, 4), (14, 5), (17, 7), (20, 9)],
     "C16": [(2, 1), (5, 2), (8, 3), (11, 4), (14, 5), (17, 7)],
-    "C17": [(2, 1), (5, 2), (8, 3), (11, 4), (14, 5), (17, 7), (20, 9)],
+    "C17": [(2, 1), (5, 2), (8, 3), (11, 4), (14, 5), (16, 7), (19, 9)],
     "C06": [(2, 1), (5, 2), (8, 4), (11, 5), (14, 7), (17, 9)],
     "C08": [(2, 1), (5, 2), (8, 4), (11, 5), (14, 7), (17, 9)],
     "C11": [(2, 1), (5, 2), (8, 4), (11, 5), (14, 7), (17, 9)],
